@@ -864,6 +864,24 @@ func registerIntercepts(g *Engine) {
 		return nil
 	}
 
+	// pion/randutil math generator: arbitrary values in range
+	ic["github.com/pion/randutil.NewMathRandomGenerator"] = func(e *Exec, fn *ssa.Function, a []Value) Value {
+		t := e.namedType("github.com/pion/randutil", "mathRandomGenerator")
+		return IfaceVal{t: types.NewPointer(t), v: PtrVal{loc: e.newLoc(t)}}
+	}
+	ic["(*github.com/pion/randutil.mathRandomGenerator).Intn"] = func(e *Exec, fn *ssa.Function, a []Value) Value {
+		n := e.scalar(a[1])
+		x := e.hiddenFresh("rnd", 64)
+		e.assume(e.tb.BAnd(e.tb.Cmp(OSle, e.tb.Const(64, 0), x), e.tb.Cmp(OSlt, x, n)))
+		return x
+	}
+	ic["(*github.com/pion/randutil.mathRandomGenerator).Uint64"] = func(e *Exec, fn *ssa.Function, a []Value) Value {
+		return e.hiddenFresh("rnd", 64)
+	}
+	ic["(*github.com/pion/randutil.mathRandomGenerator).Uint32"] = func(e *Exec, fn *ssa.Function, a []Value) Value {
+		return e.hiddenFresh("rnd", 32)
+	}
+
 	// random identifiers
 	ic["(*github.com/pion/ice/v4.candidateIDGenerator).Generate"] = func(e *Exec, fn *ssa.Function, a []Value) Value {
 		e.idCounter++
